@@ -88,9 +88,8 @@ struct MonHooks17 : MonHooks {
             long long s = op.geti("s", -1);
             auto &tab = ex->slot_table();
             if (s >= 0 && (size_t)s < tab.size() && tab[(size_t)s].live) {
-                Skinny128CTR_t *h = (Skinny128CTR_t *)tab[(size_t)s].mem;
                 size_t size = 0, tail = 0;
-                size_t nz = skv_mon_block_nonzero(h->ctx, &size, &tail, 64);
+                size_t nz = skv_mon_block_nonzero(handle_ctx(tab[(size_t)s].kind, tab[(size_t)s].mem), &size, &tail, 64);
                 ++cleanups_of_live;
                 if (nz > max_nonzero_before) max_nonzero_before = nz;
                 if (size) block_sizes.push_back(size);
